@@ -42,7 +42,13 @@ def expr(F, x, du=None, depth=0, seen=None):
         fields = fields[1:]
     if full_fields and full_fields[0].startswith("tuple.") and base[0] == "bin":
         return base if not fields else ("field", base, fields)
+    # projection out of a tuple aggregate built in this body: select the component
+    while fields and base[0] == "agg" and base[1] == "tuple" and fields[0].isdigit() and int(fields[0]) < len(base[2]):
+        base = base[2][int(fields[0])]
+        fields = fields[1:]
     if fields:
+        if base[0] == "field":
+            return ("field", base[1], tuple(base[2]) + tuple(fields))
         return ("field", base, fields)
     return base
 
@@ -91,8 +97,11 @@ def _def_expr(F, kind, site, du, depth, seen):
         return ("discr", expr(F, Place(rv["discr"]), du, depth + 1, seen))
     if "agg" in rv:
         a = rv["agg"]
-        name = a if not isinstance(a, dict) else (a.get("adt", a.get("closure", "?")).rsplit("::", 1)[-1]
-                                                  + ("::" + a["variant"] if "variant" in a else ""))
+        if isinstance(a, dict) and "closure" in a:
+            name = "closure:" + a["closure"]
+        else:
+            name = a if not isinstance(a, dict) else (a.get("adt", "?").rsplit("::", 1)[-1]
+                                                      + ("::" + a["variant"] if "variant" in a else ""))
         return ("agg", name, tuple(expr(F, o, du, depth + 1, seen) for o in rv["ops"]))
     return ("?",)
 
@@ -152,3 +161,37 @@ def is_plus_one(e, base_pred):
 
 def strip_field(e):
     return e[1] if e[0] == "field" else e
+
+
+def closure_paths(e):
+    """Paths of closures constructed inside expression e."""
+    return [x[1][len("closure:"):] for x in walk(e) if x[0] == "agg" and isinstance(x[1], str)
+            and x[1].startswith("closure:")]
+
+
+def field_deps(prog, F, e, depth=0):
+    """Names (last segment) of all fields the value of e may depend on, looking into the bodies of
+    closures that e constructs (e.g. the closure given to Option::map_or)."""
+    out = set()
+    for x in walk(e):
+        if x[0] == "field":
+            out.update(x[2])
+    if depth < 3:
+        for cp in closure_paths(e):
+            G = prog.fn(cp)
+            if G is None:
+                continue
+            for H in prog.with_closures(G):
+                for s in H.stmts():
+                    for pl in ([s.dst] if s.dst is not None else []):
+                        out.update(f.rsplit(".", 1)[-1] for f in pl.fields())
+                    rv = s.rv or {}
+                    for k in ("ref", "discr"):
+                        if k in rv:
+                            out.update(f.rsplit(".", 1)[-1] for f in Place(rv[k]).fields())
+                    for k in ("use", "cast"):
+                        if k in rv:
+                            p = op_place(rv[k])
+                            if p is not None:
+                                out.update(f.rsplit(".", 1)[-1] for f in p.fields())
+    return out
